@@ -13,7 +13,8 @@
    L3 repair_layout_invariant: par2_repair returns the same outcome and the same list of repaired paths, and every path
       that read the same before reads the same afterwards (in particular every protected path).
    L4 intact_block_found_and_used: a recovery file at ANY path with the prefix <index minus extension>. and the suffix
-      .par2 (the paths are byte lists: spaces, glob metacharacters, further separators) that contains a recovery packet
+      .par2 and no separator after the prefix - any file of the index file's own directory with such a name (the paths
+      are byte lists: spaces, glob metacharacters), but no file of a sub-directory - that contains a recovery packet
       of the set for the exponent e puts that block into slot e of the loaded table, and c_pusable counts every
       exponent for which some file has a block exactly once.
    No lift is false: the table is sized by the highest exponent, but that is a function of the SET of packets; the order
@@ -24,7 +25,7 @@ From Coq Require Import Lia ZifyN ZifyNat ZifyBool Permutation.
 From Gopar Require Import Model.Base Model.GF16 Model.Matrix Model.RS16 Model.CRC Model.GoPath Model.FS Model.Par2
      Proofs.GoPathFacts Proofs.Par2Facts Proofs.Par2Create Proofs.Par2Layout Proofs.Par2Verify Proofs.Par2Clean
      Proofs.Par2Resync Proofs.Par2Ignore Proofs.Par2CreatePaths Proofs.Par2Reader2.
-From Gopar Require Proofs.Par1Clean Proofs.Par2RepairComplete.
+From Gopar Require Proofs.Par1Clean Proofs.Par2RepairComplete Proofs.Par2Converge.
 Open Scope N_scope.
 Set Default Timeout 120.
 
@@ -625,6 +626,109 @@ Section LayoutOps.
     - intros es Hnd Hes. apply Permutation_length. apply NoDup_Permutation; [apply NoDup_nodup|exact Hnd|].
       intros e'. rewrite Hin, Hes. reflexivity.
   Qed.
+
+  (** * L5: a file that the discovery pattern does not list - in particular EVERY file below a sub-directory beside the
+      set, whatever the sub-directory and the file are called ("<base>.x.par2/y", "<base>.sub/x.par2") - is invisible
+      to Verify and Repair: creating it or changing it changes nothing *)
+
+  Lemma read_res_set_other f q b p :
+    p <> q -> (fs_lookup f p <> None \/ starts_with q (p ++ [SLASH]) = false) ->
+    read_res (fs_set f q b) p = read_res f p.
+  Proof.
+    intros Hne H. unfold read_res. rewrite fs_lookup_set, is_dir_set.
+    destruct (str_eqb q p) eqn:E; [apply str_eqb_eq in E; congruence|].
+    destruct (fs_lookup f p) as [x|]; [reflexivity|].
+    destruct H as [H|H]; [congruence|]. rewrite H, orb_false_r. reflexivity.
+  Qed.
+
+  (* q is any path that is not listed, is not the index file or a protected file, and does not turn one of these
+     into a directory; b is any content; q may or may not exist before *)
+  Theorem load_all_ignores_unlisted_file ix q b fs :
+    rec_pattern ix q = false ->
+    q <> ix -> starts_with q (ix ++ [SLASH]) = false ->
+    (forall d st1, new_decoder md5 ix (io_init fs []) = (Ok d, st1) -> forall info, In info (d_rec d) ->
+       file_path ix (di_name info) <> q /\ starts_with q (file_path ix (di_name info) ++ [SLASH]) = false) ->
+    fst (load_all md5 ix (io_init (fs_set fs q b) [])) = fst (load_all md5 ix (io_init fs [])).
+  Proof.
+    intros Hpat Hix Hixd Hprot. apply load_all_frame.
+    - apply read_res_set_other; [congruence|right; exact Hixd].
+    - intros d st1 ND info Hin. destruct (Hprot d st1 ND info Hin) as [Hne Hd].
+      apply read_res_set_other; [exact Hne|right; exact Hd].
+    - unfold rec_listing. rewrite (Par2Converge.fs_set_filter_keys (rec_pattern ix) fs q b Hpat). reflexivity.
+    - intros p Hp. apply in_rec_listing in Hp. destruct Hp as [Hk Hp].
+      apply read_res_set_other.
+      + intros ->. rewrite Hp in Hpat. discriminate Hpat.
+      + left. apply fs_lookup_in. exact Hk.
+  Qed.
+
+  (* Verify and Repair are functions of the loaded state: equal loads give equal results *)
+  Lemma verify_of_same_load ix fs1 fs2 :
+    fst (load_all md5 ix (io_init fs1 [])) = fst (load_all md5 ix (io_init fs2 [])) ->
+    fst (par2_verify md5 ix (io_init fs1 [])) = fst (par2_verify md5 ix (io_init fs2 [])).
+  Proof.
+    intros E. unfold par2_verify.
+    destruct (load_all md5 ix (io_init fs1 [])) as [r1 s1]. destruct (load_all md5 ix (io_init fs2 [])) as [r2 s2].
+    cbn [fst] in E. subst r2. destruct r1; reflexivity.
+  Qed.
+
+  Lemma repair_of_same_load ix fs1 fs2 dbl :
+    fst (load_all md5 ix (io_init fs1 [])) = fst (load_all md5 ix (io_init fs2 [])) ->
+    let r1 := par2_repair md5 ix dbl (io_init fs1 []) in
+    let r2 := par2_repair md5 ix dbl (io_init fs2 []) in
+    fst r1 = fst r2 /\
+    (forall q, read_res fs1 q = read_res fs2 q -> read_res (io_fs (snd r1)) q = read_res (io_fs (snd r2)) q).
+  Proof.
+    intros E. cbv zeta. unfold par2_repair.
+    destruct (load_all_pres md5 ix (io_init fs1 [])) as (F1 & S1 & _).
+    destruct (load_all_pres md5 ix (io_init fs2 [])) as (F2 & S2 & _).
+    destruct (load_all md5 ix (io_init fs1 [])) as [r1 s1]. destruct (load_all md5 ix (io_init fs2 [])) as [r2 s2].
+    cbn [fst snd io_init io_fs io_sched] in *. subst r2.
+    assert (Triv : forall q, read_res fs1 q = read_res fs2 q -> read_res (io_fs s1) q = read_res (io_fs s2) q).
+    { intros q Hq. rewrite F1, F2. exact Hq. }
+    destruct r1 as [ds|e|q]; [|split; [reflexivity|exact Triv]|split; [reflexivity|exact Triv]].
+    destruct (ds_fis ds) as [|fi0 fis]; [split; [reflexivity|exact Triv]|].
+    destruct (repair_core ds dbl) as [data|e|q]; [|split; [reflexivity|exact Triv]|split; [reflexivity|exact Triv]].
+    lazymatch goal with |- fst (write_repaired md5 ix ?todo [] s1) = _ /\ _ =>
+      destruct (write_repaired_agree ix todo [] s1 s2 S1 S2) as (A & B) end.
+    split; [exact A|]. intros q Hq. apply B. apply Triv. exact Hq.
+  Qed.
+
+  Theorem verify_ignores_unlisted_file ix q b fs :
+    rec_pattern ix q = false ->
+    q <> ix -> starts_with q (ix ++ [SLASH]) = false ->
+    (forall d st1, new_decoder md5 ix (io_init fs []) = (Ok d, st1) -> forall info, In info (d_rec d) ->
+       file_path ix (di_name info) <> q /\ starts_with q (file_path ix (di_name info) ++ [SLASH]) = false) ->
+    fst (par2_verify md5 ix (io_init (fs_set fs q b) [])) = fst (par2_verify md5 ix (io_init fs [])).
+  Proof.
+    intros Hpat Hix Hixd Hprot. apply verify_of_same_load.
+    exact (load_all_ignores_unlisted_file ix q b fs Hpat Hix Hixd Hprot).
+  Qed.
+
+  (* Repair: the same outcome and the same list of repaired paths; the file q itself is still there afterwards, and
+     every path reads afterwards as it does after the run without q *)
+  Theorem repair_ignores_unlisted_file ix q b fs dbl :
+    rec_pattern ix q = false ->
+    q <> ix -> starts_with q (ix ++ [SLASH]) = false ->
+    (forall d st1, new_decoder md5 ix (io_init fs []) = (Ok d, st1) -> forall info, In info (d_rec d) ->
+       file_path ix (di_name info) <> q /\ starts_with q (file_path ix (di_name info) ++ [SLASH]) = false) ->
+    let r' := par2_repair md5 ix dbl (io_init (fs_set fs q b) []) in
+    let r := par2_repair md5 ix dbl (io_init fs []) in
+    fst r' = fst r /\
+    (forall p, read_res (fs_set fs q b) p = read_res fs p -> read_res (io_fs (snd r')) p = read_res (io_fs (snd r)) p).
+  Proof.
+    intros Hpat Hix Hixd Hprot. apply repair_of_same_load.
+    exact (load_all_ignores_unlisted_file ix q b fs Hpat Hix Hixd Hprot).
+  Qed.
+
+  (* every path with a separator after "<index minus extension>." is such a path: the pattern rejects it *)
+  Lemma rec_pattern_below_subdirectory ix x y :
+    rec_pattern ix ((strip_ext ix ++ [DOT]) ++ x ++ SLASH :: y) = false.
+  Proof.
+    unfold rec_pattern. rewrite skipn_length_app.
+    assert (E : no_slash (x ++ SLASH :: y) = false).
+    { rewrite no_slash_app, no_slash_cons, N.eqb_refl. cbn [negb andb]. apply andb_false_r. }
+    rewrite E. apply andb_false_r.
+  Qed.
 End LayoutOps.
 
 (** * decision procedures for the hypotheses (sound; used for the examples) *)
@@ -845,7 +949,7 @@ Module LOExample.
   Qed.
 
   (* layout B: an independent writer.  The recovery packets in the reverse order, split differently over three files
-     whose names gopar would never choose (spaces and glob metacharacters; a further directory level; a file with
+     whose names gopar would never choose (spaces and glob metacharacters; dots and a semicolon; a file with
      nothing of the set), one recovery packet twice, a recovery packet of ANOTHER set (same exponent, a block of
      another size) in between, the other packets spread and reversed *)
   Definition foreign : apkt := (ig_sid2, TYPE_RECV, le_encode 4 1 ++ [0; 0; 0; 0; 0; 0; 0; 0]).
@@ -853,7 +957,7 @@ Module LOExample.
   Definition B2 : list apkt := [r0; pib; pfb; pm; pc].
   Definition B3 : list apkt := [foreign].
   Definition pB1 : list N := bs "/w/o.z w*?[1].par2".
-  Definition pB2 : list N := bs "/w/o.sub/x.par2".
+  Definition pB2 : list N := bs "/w/o.sub;x.par2".
   Definition pB3 : list N := bs "/w/o.only-foreign.par2".
   Definition fsB_with (ixbytes : bytes) : list (list N * bytes) :=
     [(ix, ixbytes); (bs "/w/b", file_of fsA (bs "/w/b"));
@@ -867,6 +971,15 @@ Module LOExample.
 
   Lemma listing_B ib : rec_listing ix (fsB_with ib) = [pB3; pB2; pB1].
   Proof. vm_compute. reflexivity. Qed.
+
+  (* the listing is that of ONE directory: the same file one level further down, in a sub-directory whose name
+     starts with "<index base>.", is NOT listed (FindWithPrefixAndSuffix reads the directory of the index file only) *)
+  Example deeper_file_not_listed ib :
+    rec_pattern ix (bs "/w/o.sub/x.par2") = false /\ rec_pattern ix pB2 = true /\
+    rec_listing ix ((bs "/w/o.sub/x.par2", frames toy_md5 B2) :: fsB_with ib) = rec_listing ix (fsB_with ib) /\
+    fst (io_list (strip_ext ix ++ [DOT]) (ext ix) (io_init ((bs "/w/o.sub/x.par2", frames toy_md5 B2) :: fsB_with ib) []))
+      = Ok [pB3; pB2; pB1].
+  Proof. vm_compute. repeat split; reflexivity. Qed.
 
   Lemma foreign_not_own : pk_set foreign <> d_setid dec.
   Proof. vm_compute. discriminate. Qed.
@@ -1082,6 +1195,11 @@ Print Assumptions verify_layout_invariant.
 Print Assumptions repair_layout_invariant.
 Print Assumptions repair_layout_invariant_protected.
 Print Assumptions intact_block_found_and_used.
+Print Assumptions load_all_ignores_unlisted_file.
+Print Assumptions verify_ignores_unlisted_file.
+Print Assumptions repair_ignores_unlisted_file.
+Print Assumptions rec_pattern_below_subdirectory.
+Print Assumptions LOExample.deeper_file_not_listed.
 Print Assumptions LOExample.packets_of_A.
 Print Assumptions LOExample.layouts_A_B.
 Print Assumptions LOExample.ex_load_all.
